@@ -3,13 +3,14 @@ PROP = {
     "audit_namespaces": ["GunYu.Props.C14"],
     "required_theorems": [
         "GunYu.Props.C14.rebuild_contiguous",
-        "GunYu.Props.C14.rebuild_survivors",
         "GunYu.Props.C14.rebuild_gap_is_error",
         "GunYu.Props.C14.init_inv",
         "GunYu.Props.C14.each_request_preserves",
         "GunYu.Props.C14.resume_is_committed_prefix",
         "GunYu.Props.C14.coordinator_frontier_is_committed_prefix",
+        "GunYu.Props.C14.start_always_resumes",
         "GunYu.Props.C14.sync_mode_exact",
+        "GunYu.Props.C14.consistent_of_inv",
         "GunYu.Props.C14.resume_monotone",
     ],
     "gens": ["c17"],
@@ -22,6 +23,7 @@ PROP = {
     "harness": [
         {"name": "C14rebuild", "pkg": "./pkg/redis/checkpoint/", "test": "TestVerifC14Rebuild"},
         {"name": "C14", "pkg": "./syncer/", "test": "TestVerifC14"},
+        {"name": "C14loop", "pkg": "./syncer/", "test": "TestVerifC14Loop"},
     ],
     "driver": "drv_C14",
     "rule": "c14r: corpus; ALL 64 subsets (two orders each) of a 6-record journal under no snapshot / snapshot seq 0 / seq 2; "
